@@ -308,6 +308,18 @@ def _all_names(node):
         set(a.arg for n in ast.walk(node) if isinstance(n, ast.arguments) for a in n.posonlyargs + n.args + n.kwonlyargs)
 
 
+def _walk_same_scope(node):
+    """Nodes of a statement that execute in the enclosing function's own scope and at the statement's own time."""
+    todo = [node]
+    while todo:
+        n = todo.pop()
+        yield n
+        for c in ast.iter_child_nodes(n):
+            if isinstance(c, (ast.FunctionDef, ast.AsyncFunctionDef, ast.ClassDef, ast.Lambda, ast.GeneratorExp)):
+                continue
+            todo.append(c)
+
+
 class Helper(object):
     def __init__(self, node, kind, cls=None):
         self.node, self.kind, self.cls = node, kind, cls   # kind: 'func' | 'method' | 'static' | 'class'
@@ -387,13 +399,47 @@ class Inliner(object):
         self.mod_helpers, self.cls_helpers = collect_helpers(tree, anchors)
         self.count = 0
         self.log = []
+        self.anchors = anchors
+        self.local_helpers = {}     # closures defined in the function being processed (see _local_helpers)
+        self.shadowed = set()       # names the function being processed binds itself
+
+    def _local_helpers(self, fn):
+        """Closures that are plain local helpers: ``def reg(a, b): ...`` at the top level of ``fn``'s body, never re-bound,
+        used only as the callee of calls that follow the definition.  Their free variables are ``fn``'s locals, read at
+        call time -- exactly what the inlined body reads."""
+        out = {}
+        for i, st in enumerate(fn.body):
+            if not isinstance(st, ast.FunctionDef) or st.name in self.anchors or st.decorator_list:
+                continue
+            fake = copy.copy(st)
+            fake.name = '_' + st.name.lstrip('_')
+            if _eligible_def(fake) != 'func':
+                continue
+            if any(isinstance(n, ast.Call) and isinstance(n.func, ast.Name) and n.func.id == st.name for n in ast.walk(st)):
+                continue
+            uses = [n for n in ast.walk(fn) if isinstance(n, ast.Name) and n.id == st.name]
+            callees = set(id(n.func) for n in ast.walk(fn) if isinstance(n, ast.Call) and isinstance(n.func, ast.Name))
+            binds = [n for n in ast.walk(fn) if isinstance(n, (ast.FunctionDef, ast.ClassDef)) and n is not st and n is not fn and n.name == st.name]
+            if binds or not uses or any(not isinstance(u.ctx, ast.Load) or id(u) not in callees for u in uses):
+                continue
+            # the closure must not be called from another nested function / lambda / comprehension (different scope),
+            # nor before its definition
+            later = set(id(n) for s2 in fn.body[i + 1:] for n in _walk_same_scope(s2))
+            if any(id(u) not in later for u in uses):
+                continue
+            # a name the closure binds locally that the enclosing function also uses would need ``nonlocal`` to be shared:
+            # it is not shared, and the inliner renames it
+            out[st.name] = Helper(st, 'func')
+        return out
 
     # -- which helper does this call name? ------------------------------------------------------------
     def _helper_of(self, call, cls_name):
         f = call.func
         if any(isinstance(a, ast.Starred) for a in call.args) or any(k.arg is None for k in call.keywords):
             return None, None
-        if isinstance(f, ast.Name) and f.id in self.mod_helpers:
+        if isinstance(f, ast.Name) and f.id in self.local_helpers:
+            return self.local_helpers[f.id], None
+        if isinstance(f, ast.Name) and f.id in self.mod_helpers and f.id not in self.shadowed:
             return self.mod_helpers[f.id], None
         if isinstance(f, ast.Attribute) and isinstance(f.value, ast.Name):
             recv = f.value.id
@@ -614,12 +660,14 @@ class Inliner(object):
         return out, changed
 
     def run(self):
-        if not self.mod_helpers and not self.cls_helpers:
-            return 0
 
         def do_func(fn, cls_name):
             names = _all_names(fn)
+            self.local_helpers = self._local_helpers(fn)
+            self.shadowed = _stored_names(fn.body) | set(a.arg for a in fn.args.posonlyargs + fn.args.args + fn.args.kwonlyargs) | \
+                set(n.name for n in ast.walk(fn) if isinstance(n, (ast.FunctionDef, ast.ClassDef)) and n is not fn)
             new, ch = self._process_block(fn.body, cls_name, names, [0])
+            self.local_helpers = {}
             if ch:
                 fn.body = new
             for st in fn.body:
